@@ -263,3 +263,10 @@ def run(ctx):
         for df in ("nan", "set"):
             for lr in (0, 1):
                 ctx.require(f"setting:lp={lp},default={df},lr={lr}")
+
+
+def passive(ctx, fl, probe):
+    """attach this property's always-on monitor to a foreign workload (the repository's test-suite, see vf/pytest_plugin.py)"""
+    mon = ReplayMonitor(ctx, fl)
+    mon.install(probe)
+    return None
